@@ -269,16 +269,6 @@ struct Interp
     return SI(OwnF(sp.fid, h));
   }
 
-  // delete_rep_with_check() (assignment from an empty source, `*d = slot()`) writes `rep_ = nullptr` after
-  // `delete rep_`: it must not destroy the variable it runs on
-  std::string delete_check(int d)
-  {
-    SI* D = slots[d];
-    if (own_kind(D) && owned(d))
-      return "owned";
-    return "";
-  }
-
   static std::string b2s(bool b) { return b ? "1" : "0"; }
 
   std::string exec(const std::vector<std::string>& w)
@@ -354,12 +344,6 @@ struct Interp
         return "dead";
       SI* D = slots[a];
       SI* X = slots[b];
-      if (D->rep_ != X->rep_ && X->empty())
-      {
-        std::string e = delete_check(a);
-        if (!e.empty())
-          return e;
-      }
       if (op == "asgS")
         *D = *X;
       else
@@ -387,9 +371,6 @@ struct Interp
       snames.insert(a);
       if (!slots.count(a))
         return "dead";
-      std::string e = delete_check(a);
-      if (!e.empty())
-        return e;
       SI* D = slots[a];
       *D = SI();
       return "ok";
